@@ -26,10 +26,10 @@ NOT_A_NODE = {"new": (1, 2), "add": (2,), "nadd": (2,), "ins": (2,), "nins": (2,
 # docs/C14_clone_ident_fail.diff: mpt_node_clone goes on with the destroyed copy after a failed mpt_identifier_copy.
 # Left out while False: clones with an allocation failure (fclone/flclone/ftclone) in histories that have a node
 # with the long name L (the only identifier mpt_identifier_copy allocates for).
-PATCHED_CLONE_IDENT_FAIL = False
+PATCHED_CLONE_IDENT_FAIL = True
 # docs/C14_locate_ptr_ident.diff: mpt_node_locate(.., ident, 0, charset != 0) compares the pointer only, not the
 # length, on the forward and the last-node path.  Left out while False: the query token "pn" (NULL, 0, UTF8).
-PATCHED_LOCATE_PTR = False
+PATCHED_LOCATE_PTR = True
 
 
 def allowed(case):
@@ -405,50 +405,78 @@ class C14(DiffProperty):
     libs = ["mptcore"]
     harness_env = vcheck.ASAN_LEAK_ENV
     rule = ("a case is a history (<= 20 operations + final clean-up) over a population of <= 8 created nodes (names from "
-            "{unnamed,a,b,c}, values from {none,1,2}) plus whatever cloning adds: new, gnode_after/before, gnode_add/node_add "
-            "and gnode_insert/node_insert at positions {0,1,n,-n} (by position and by name), unlink, node_move of a child "
-            "list or a local list into a list with overlapping names, node/list/tree clone (depth >= 2), clear, destroy, "
-            "gnode_swap/switch/relink, traversal orders, node_find/node_next; after EVERY operation the harness dumps all raw links, its own "
-            "well-formedness verdict and the shape; a case is non-trivial when at least one node gets linked; distinct = "
-            "distinct case text")
+            "{unnamed,a,b,c, L = a text that does not fit the node, M = a text a sized node has room for, B = a binary "
+            "identifier}, values from {none,1,2, 3 = a value that refuses to be cloned}) plus whatever cloning adds: new, "
+            "gnode_after/before, gnode_add/node_add and gnode_insert/node_insert at positions {0,1,n,-n} (by position and by "
+            "name), unlink, node_move of a child list or a local list into a list with overlapping names, node/list/tree "
+            "clone (depth >= 2) also with the k-th allocation of the call failing (malloc seam) or an unclonable value at "
+            "every place of the source, clear, destroy, gnode_swap/switch/relink, traversal in pre/in/post/level order with "
+            "the depths the handler is told and a handler that ends the traversal at its k-th call, node_find/node_next, "
+            "mpt_node_locate from every node with 16 kinds of query (text, explicit charset, binary, unnamed, identifier "
+            "without data, length without data), every entry point with a NULL node; after EVERY operation the harness dumps "
+            "all raw links, its own well-formedness verdict and the shape; a case is non-trivial when at least one node gets "
+            "linked; distinct = distinct case text")
     modelled = ("mptcore/node/{gnode_after,gnode_before,gnode_pos,node_insert,node_locate,node_unlink,node_move,node_clone,"
-                "tree_clone,node_clear,node_destroy,gnode_swap,gnode_relink,gnode_traverse(pre/in/post),node_find,node_next}.c transcribed in "
-                "coq/C14/NodeModel.v over a pointer heap; identifier comparison is modelled as equality of short names "
-                "(charset/length cases of mpt_node_locate beyond that are not modelled); malloc failure paths, "
-                "gnode_traverse level order / gnode_level.c are not modelled")
+                "tree_clone,node_clear,node_destroy,gnode_swap,gnode_relink,gnode_traverse (all four orders, handler result, "
+                "depth),gnode_level,node_find,node_next}.c transcribed in coq/C14/NodeModel.v over a pointer heap; an "
+                "identifier is modelled as a name code with equality (the harness uses 7 identifiers of 4 kinds; a query "
+                "of mpt_node_locate is translated to the code of the identifier it denotes by a table in the driver, the "
+                "same table as actual arguments is in the harness); allocation failure is modelled for the clone functions "
+                "(an oracle names the malloc of the call that fails), not for mpt_node_new/mpt_identifier_set called "
+                "directly; node_clone.c is modelled as patched by docs/C14_clone_ident_fail.diff and node_locate.c as "
+                "patched by docs/C14_locate_ptr_ident.diff (the cases that tell the difference are switched off until the "
+                "patches are committed: PATCHED_* in props/c14.py); identifiers that carry a pointer instead of data "
+                "(charset != 0, length 0, no API creates them) are not modelled as node names")
     trusted = ["harness/c14_node.c reads every node's next/prev/parent/children from its own table after each operation and "
-               "computes the well-formedness verdict itself; freed memory is recognised by ASan poisoning; LeakSanitizer "
-               "is run after the final clean-up",
+               "computes the well-formedness verdict itself; nodes enter the table when mpt_node_new allocates them (the "
+               "harness compiles node_new.c and identifier.c itself with malloc replaced by a seam that can fail its k-th "
+               "call); freed memory is recognised by ASan poisoning; LeakSanitizer is run after the final clean-up",
                "the history language skips calls that violate the callers' obligations of the C interface (inserting a "
                "node that is still linked or an ancestor of the position; merging lists of the same tree); the same guard "
-               "is evaluated by harness, model and specification"]
+               "is evaluated by harness, model and specification",
+               "the table query token -> (ident, len, charset) in the harness and query token -> denoted name code in "
+               "ml/c14_driver.ml"]
     level = "proof"
     level_text = ("proof: Coq theorems C14_step_refines_forest / C14_history_refines_forest / C14_wf_preserved / "
-                  "C14_wf_links / C14_released_once / C14_cleanup_releases_all / C14_clone_equal_shape state, for every heap "
-                  "that represents an ordered forest (any number of nodes, depth, names) and EVERY history of the history "
-                  "language — new, gnode_after/before, gnode_add/node_add and gnode_insert/node_insert at every position "
-                  "code (by position and by name), unlink, mpt_node_move (merge of lists with overlapping names, "
-                  "recursively, from a child list or a local list), node/list/tree clone, clear, destroy, gnode_swap, "
-                  "gnode_switch (also of adjacent siblings), gnode_relink, the three traversal orders, node_find/node_next and "
-                  "the final clean-up — that the transcribed pointer mechanism never dereferences NULL or freed memory, never frees "
+                  "C14_wf_links / C14_released_once / C14_cleanup_releases_all / C14_clone_equal_shape / C14_clone_succeeds / "
+                  "C14_walk_calls state, for every heap that represents an ordered forest (any number of nodes, depth, names) "
+                  "and EVERY history of the history language — new, gnode_after/before, gnode_add/node_add and "
+                  "gnode_insert/node_insert at every position code (by position and by name), unlink, mpt_node_move (merge "
+                  "of lists with overlapping names, recursively, from a child list or a local list), node/list/tree clone "
+                  "whatever fails on the way (an unclonable value, the k-th allocation), clear, destroy, gnode_swap, "
+                  "gnode_switch (also of adjacent siblings), gnode_relink, traversal in pre/in/post/level order with a handler "
+                  "that may end it, node_find/node_next/node_locate from any node, the entry points with a NULL node and the "
+                  "final clean-up — that the transcribed pointer mechanism never dereferences NULL or freed memory, never frees "
                   "twice, returns what the forest operation returns and after EVERY step has exactly the links the "
                   "resulting forest dictates — which implies every explicit link rule (next/prev agree, every child names "
                   "its parent, children = list head, parent and next chains end, pointers name live cells) —, that every "
-                  "id is in the forest once or freed once and after the clean-up all ids are freed exactly once, and that "
-                  "a cloned list has the source's shape at every depth with parent links; no hypothesis restricts the "
-                  "operations; the model is tied to the code on every run by differential execution of histories under "
-                  "ASan/UBSan/LSan with a full raw-link dump and an independent well-formedness verdict after every operation")
+                  "id is in the forest once or freed once and after the clean-up all ids are freed exactly once, that "
+                  "a cloned list has the source's shape at every depth with parent links or, when the clone fails, the forest "
+                  "is as before and everything built is freed once, and that a traversal calls the handler for exactly the "
+                  "nodes and depths of the order (level order: level by level) up to the call that ends it; no hypothesis "
+                  "restricts the operations; the model is tied to the code on every run by differential execution of histories "
+                  "under ASan/UBSan/LSan with a full raw-link dump and an independent well-formedness verdict after every "
+                  "operation")
     level_note = ("Trusted: Coq kernel; hand transcription of mptcore/node/*.c (validated by the correspondence run, not "
-                  "verified); names are modelled as 4 codes with equality (identifier charset/length variants of "
-                  "mpt_node_locate are not modelled); malloc failure and the level-order traversal (gnode_level.c) are not "
-                  "modelled; the guards of the history language (insert only unlinked nodes, never below themselves; merge "
-                  "only lists of different top-level lists; swap/switch only nodes that are not ancestor-related) are "
-                  "callers' obligations, evaluated identically by harness, model and specification; extraction "
-                  "(ExtrOcamlBasic) and OCaml driver; harness. Theorems are closed under the global context (no axioms).")
+                  "verified); identifiers are modelled as name codes with equality (7 identifiers of 4 kinds in the runs; the "
+                  "translation of mpt_node_locate's (ident,len,charset) into the code it denotes is a table in driver and "
+                  "harness); malloc failure is modelled inside the clone functions only; two defects of /repo are reported "
+                  "with patches (docs/C14_clone_ident_fail.diff, docs/C14_locate_ptr_ident.diff): the model follows the "
+                  "patched code and the generator leaves out the cases that reach them until the switches PATCHED_* in "
+                  "props/c14.py are flipped; the guards of the history language (insert only unlinked nodes, never below "
+                  "themselves; merge only lists of different top-level lists; swap/switch only nodes that are not "
+                  "ancestor-related) are callers' obligations, evaluated identically by harness, model and specification; "
+                  "extraction (ExtrOcamlBasic) and OCaml driver; harness. Theorems are closed under the global context (no "
+                  "axioms).")
     technique = "Coq refinement proof (pointer heap -> ordered forests, zipper frame rule, every operation) + differential correspondence check"
-    assumptions = ["malloc succeeds", "callers insert only unlinked nodes and never below themselves (guards of the history language)"]
+    assumptions = ["malloc succeeds outside the clone functions (inside them its failure is part of the case)",
+                   "callers insert only unlinked nodes and never below themselves (guards of the history language)"]
 
     harness_args = ("10",)   # per-case timeout in seconds (a cyclic list makes the library loop for ever)
+
+    def corpus(self):
+        # regressions of defects that are reported but not committed yet wait for their switch
+        return [c for c in DiffProperty.corpus(self) if allowed(c)]
 
     def run(self, tier, seed, replay=None):
         # LeakSanitizer's stop-the-world scan after the clean-up: every case in the quick tier,
